@@ -51,7 +51,7 @@ class RemoteValueRaw(RemoteValue[int]):
         if self.payload_length == 0:
             try:
                 return DPTBinary(value)
-            except TypeError as err:
+            except (TypeError, IndexError) as err:
                 raise ConversionError(
                     "Could not init DPTBinary", value=str(value)
                 ) from err
